@@ -101,7 +101,7 @@ PROPS = {
             {"name": "race-router", "quick": 8000, "thorough": 1000000, "thorough_time": 60, "extra": ["-sim.only=race"]},
             {"name": "race-group", "quick": 8000, "thorough": 1000000, "thorough_time": 60, "extra": ["-sim.only=race"]},
             {"name": "race-wrap", "quick": 8000, "thorough": 1000000, "thorough_time": 60, "extra": ["-sim.only=race"]},
-            {"name": "race-models", "quick": 16000, "thorough": 1000000, "thorough_time": 150, "extra": ["-sim.only=race"]},
+            {"name": "race-models", "quick": 40000, "thorough": 1000000, "thorough_time": 150, "extra": ["-sim.only=race"]},
             {"name": "race-servers", "quick": 16000, "thorough": 1000000, "thorough_time": 150, "extra": ["-sim.only=race"]},
         ],
         "require_hits": ["resource.gau.commit", "bus.send.each", "router.get.insert", "electric.mu"],
